@@ -275,3 +275,19 @@ Proof.
   destruct (name_at_n_steps _ _ _ _ _ _ _ Hn Hs) as (m & ls' & nx' & E & Hm).
   apply name_at_n_name_at in Hm. eapply Hno; eauto.
 Qed.
+
+(* ------------------------------------------------------------------ *)
+(* a name cannot be longer than 64 octets per step of its walk: 64 * length msg bounds every name *)
+Lemma name_at_n_wire_len msg n off ls next : bytes_ok msg -> name_at_n msg n off ls next -> (wire_len ls <= 64 * n)%nat.
+Proof.
+  intros Hok. induction 1 as [off H | n off c ls next H H1 H2 H3 _ IH | n off c1 c2 ls next' H H1 H2 _ IH];
+    cbn [wire_len]; try lia.
+  rewrite sub_length by lia. lia.
+Qed.
+
+Lemma name_at_wire_len msg off ls next : bytes_ok msg -> name_at msg off ls next ->
+  (wire_len ls <= 64 * length msg)%nat.
+Proof.
+  intros Hok H. apply name_at_name_at_n in H as [n H].
+  pose proof (name_at_n_wire_len _ _ _ _ _ Hok H). pose proof (name_steps_bound _ _ _ _ _ H). nia.
+Qed.
